@@ -44,8 +44,15 @@ static int take(const char *content, size_t len, obs_cfg *o, sbuf *why, const ch
 {
   mc_write_file(path, content, len);
   econf_file *kf = NULL;
-  econf_err rc = econf_readFile(&kf, path, cg.D, cg.Carg);
-  mc_st->libcalls++;
+  /* the character sets are handed over in buffers that held OTHER sets during the previous read (an unrelated file): what the
+   * library does with a set must depend on its content at the time of the call, not on where it is stored */
+  static char dbuf[16], cbuf[16]; static char prime[520];
+  if (!prime[0]) { snprintf(prime, sizeof prime, "%s.prime", path); mc_write_file(prime, "! c\np%1\n", 9); }
+  strcpy(dbuf, "%"); strcpy(cbuf, "!");
+  { econf_file *pf = NULL; if (econf_readFile(&pf, prime, dbuf, cbuf) == ECONF_SUCCESS) econf_freeFile(pf); }
+  snprintf(dbuf, sizeof dbuf, "%s", cg.D); snprintf(cbuf, sizeof cbuf, "%s", cg.Carg);
+  econf_err rc = econf_readFile(&kf, path, dbuf, cbuf);
+  mc_st->libcalls += 2;
   if (rc != ECONF_SUCCESS || !kf) { sb_printf(why, "reading the %s failed with %d (%s)", what, (int)rc, econf_errString(rc)); return -1; }
   sbuf err = {0};
   int r = obs_take(kf, o, &err);
